@@ -486,9 +486,54 @@ func ruleC16R4(c *Ctx) {
 						found = true
 					}
 				}
-				_ = fname
 				c.check(found, "C16.R4", ct.verify, "nested configuration "+ct.name+"."+prefix+f.Name()+" is verified", ct.verify.Pos(),
 					"VerifyConfig delegates to the nested values' verifier", "nested steps in this field are never verified: an invalid nested step is accepted and panics when the pipeline is built")
+				if found {
+					// …and on EVERY path that accepts the configuration (added after seed c16f: `else` verified only when
+					// `then` is absent): from the entry no success return is reachable without passing a call that consumes
+					// this field; only emptiness guards on the field itself are tolerated
+					vf := ct.verify
+					consumes := func(s ssa.CallInstruction) bool {
+						if _, isGo := s.(*ssa.Go); isGo {
+							return false
+						}
+						if s.Common().IsInvoke() && mentions(s.Common().Value, isFieldAddrOf(fname)) {
+							return true
+						}
+						for _, a := range s.Common().Args {
+							if mentions(a, isFieldAddrOf(fname)) {
+								return true
+							}
+						}
+						return false
+					}
+					sm := siteSumm(c.P, consumes)
+					ev := sm.mustEvents(vf, nil, 0)
+					var calls []ssa.CallInstruction
+					for in := range ev {
+						if ci, ok := in.(ssa.CallInstruction); ok {
+							calls = append(calls, ci)
+						}
+					}
+					guard := edgeSet(emptinessGuardEdgesFor(vf, calls))
+					notSuccess := func(in ssa.Instruction) bool {
+						r, ok := in.(*ssa.Return)
+						return ok && !returnsSuccess(vf, r)
+					}
+					addLoopEvents(c.P, vf, ev, guard, notSuccess)
+					q := &PathQ{P: c.P, Barrier: func(in ssa.Instruction) bool { return ev[in] }, EdgeBlocked: guard}
+					hit, trail := q.Reach(entryOf(vf), func(in ssa.Instruction) bool {
+						r, ok := in.(*ssa.Return)
+						return ok && returnsSuccess(vf, r)
+					})
+					pos := vf.Pos()
+					if hit != nil {
+						pos = hit.Pos()
+					}
+					c.check(hit == nil, "C16.R4", vf, "nested configuration "+ct.name+"."+prefix+f.Name()+" is verified on every accepting path", pos,
+						"no success return is reachable without a call that consumes the field (emptiness guards on the field itself tolerated)",
+						"a path accepts the configuration without verifying this nested list ("+c.P.trailString(trail)+"): an invalid nested step there is accepted and panics when the pipeline is built")
+				}
 			}
 		}
 		walkFields("", sst, recvT)
